@@ -25,6 +25,7 @@ import (
 	"fmt"
 	"math/rand"
 	"os"
+	"reflect"
 	"runtime"
 	"sort"
 	"strconv"
@@ -355,13 +356,24 @@ func c14ProjectPool(p *snapshotPool) (pool []map[string]interface{}, bl map[stri
 
 func c14ProjectQueue(q *chunkQueue) map[string]interface{} {
 	if q == nil {
-		return map[string]interface{}{"open": false, "n": 0, "e": []interface{}{}}
+		return map[string]interface{}{"open": false, "n": 0, "e": []interface{}{}, "rej": []string{}}
 	}
 	q.Lock()
 	defer q.Unlock()
 	if q.snapshot == nil {
-		return map[string]interface{}{"open": false, "n": 0, "e": []interface{}{}}
+		return map[string]interface{}{"open": false, "n": 0, "e": []interface{}{}, "rej": []string{}}
 	}
+	// the repaired queue remembers discarded senders; read by reflection so that the harness
+	// also compiles against a tree without that field
+	rej := []string{}
+	if f := reflect.ValueOf(q).Elem().FieldByName("rejected"); f.IsValid() && f.Kind() == reflect.Map {
+		for _, k := range f.MapKeys() {
+			if f.MapIndex(k).Kind() != reflect.Bool || f.MapIndex(k).Bool() {
+				rej = append(rej, k.String())
+			}
+		}
+	}
+	sort.Strings(rej)
 	n := int(q.snapshot.Chunks)
 	es := make([]interface{}, 0, n)
 	for i := 0; i < n; i++ {
@@ -380,7 +392,7 @@ func c14ProjectQueue(q *chunkQueue) map[string]interface{} {
 		}
 		es = append(es, map[string]interface{}{"b": b, "s": s, "alloc": q.chunkAllocated[uint32(i)], "ret": q.chunkReturned[uint32(i)]})
 	}
-	return map[string]interface{}{"open": true, "n": n, "e": es}
+	return map[string]interface{}{"open": true, "n": n, "e": es, "rej": rej}
 }
 
 func c14Waiters(q *chunkQueue) int {
@@ -760,6 +772,33 @@ func (r *c14Run) step(st c14Step) bool {
 			r.alloc[idx] = true
 		}
 		r.emit("FetcherAllocate", map[string]interface{}{"i": idx})
+	case "Request":
+		// a fetcher's requestChunk for index I; GetPeer is random: repeat until peer P was asked
+		q := r.queue()
+		if q == nil || r.ended {
+			return false
+		}
+		q.Lock()
+		snap := q.snapshot
+		q.Unlock()
+		if snap == nil {
+			return false
+		}
+		for k := 0; k < 16; k++ {
+			r.sy.requestChunk(snap, uint32(st.I))
+			r.reqMtx.Lock()
+			hit := false
+			for _, x := range r.reqs {
+				if x["p"] == st.P {
+					hit = true
+				}
+			}
+			r.reqMtx.Unlock()
+			if hit {
+				break
+			}
+		}
+		r.emit("Requests", map[string]interface{}{"s": c14AbsSnap(snap)})
 	default:
 		r.t.Fatalf("c14: unknown step %q", st.Op)
 	}
@@ -786,7 +825,9 @@ func (r *c14Run) requests() {
 	did := false
 	for _, i := range idx {
 		if !q.Has(uint32(i)) {
-			r.sy.requestChunk(snap, uint32(i))
+			for k := 0; k < 3; k++ { // GetPeer picks a random peer: ask a few times
+				r.sy.requestChunk(snap, uint32(i))
+			}
 			did = true
 		}
 	}
@@ -815,17 +856,32 @@ func (r *c14Run) emitEnd() {
 
 var errC14Reported = errors.New("reported")
 
-// teardown ends the applier goroutine whatever it is doing (not logged)
-func (r *c14Run) teardown() {
+// finish drives the run to its end with ordinary (logged) environment choices: pending calls
+// are answered with errors, a waiting applier times out.  Only when the chunk timeout of the
+// tree is long the queue is closed behind the applier's back, and logging stops there.
+func (r *c14Run) finish() {
 	if !r.started {
 		return
 	}
-	deadline := time.Now().Add(60 * time.Second)
+	deadline := time.Now().Add(90 * time.Second)
+	logged := true
+	fin := 0
 	for !r.ended {
 		if time.Now().After(deadline) {
 			panic(fmt.Sprintf("c14: run %d: teardown failed", r.id))
 		}
 		switch {
+		case r.pending != nil && logged:
+			switch r.pending.kind {
+			case "apphash", "state", "commit":
+				r.step(c14Step{Op: "Provider", Ans: "nowit"})
+			case "offer":
+				r.step(c14Step{Op: "Offer", V: "error"})
+			case "apply":
+				r.step(c14Step{Op: "Apply", V: "error"})
+			default:
+				r.step(c14Step{Op: "Info", Info: &c14Info{Hash: "X:other", Height: 0, Ver: 0}})
+			}
 		case r.pending != nil:
 			c := r.pending
 			r.pending = nil
@@ -834,19 +890,41 @@ func (r *c14Run) teardown() {
 			} else {
 				c.reply <- c14Reply{fail: c14ErrConn}
 			}
+			r.settle()
+		case r.waiting && logged:
+			// hand the applier the chunk it waits for (from a peer nobody rejected)
+			idx := -1
+			if q := r.queue(); q != nil {
+				q.Lock()
+				for i := uint32(0); q.snapshot != nil && i < q.snapshot.Chunks; i++ {
+					if q.chunkFiles[i] == "" && q.chunkReturned[i] {
+						idx = int(i)
+						break
+					}
+				}
+				q.Unlock()
+			}
+			fin++
+			if idx < 0 || fin > 8 || !r.step(c14Step{Op: "Arrive", P: "pZ", I: idx, B: fmt.Sprintf("z%d", fin), Kind: "ok"}) {
+				logged = false
+			}
 		case r.waiting:
+			logged = false
 			if q := r.queue(); q != nil {
 				_ = q.Close()
 			}
 			r.waiting = false
+			r.settle()
+		default:
+			r.settle()
 		}
-		r.settle()
 	}
 }
 
 var c14SkipMtx sync.Mutex
 var c14Skips = map[string]int{}
 var c14SkipEx []string
+var c14SkipIDs []string
 
 func c14RunSched(t *testing.T, w *c14Writer, id int, tmp string, s c14Sched) (skipped int) {
 	r := newC14Run(t, id, tmp)
@@ -856,6 +934,7 @@ func c14RunSched(t *testing.T, w *c14Writer, id int, tmp string, s c14Sched) (sk
 			skipped = len(s.Steps) - k
 			c14SkipMtx.Lock()
 			c14Skips[st.Op+"@"+r.pc()]++
+			c14SkipIDs = append(c14SkipIDs, s.ID)
 			if len(c14SkipEx) < 12 && st.Op != "FetcherAllocate" {
 				js, _ := json.Marshal(s)
 				c14SkipEx = append(c14SkipEx, fmt.Sprintf("step %d of %s", k, js))
@@ -865,7 +944,7 @@ func c14RunSched(t *testing.T, w *c14Writer, id int, tmp string, s c14Sched) (sk
 		}
 		r.requests()
 	}
-	r.teardown()
+	r.finish()
 	w.flush(r.rows)
 	return skipped
 }
@@ -1006,7 +1085,7 @@ func c14RandomSched(t *testing.T, w *c14Writer, id int, tmp string, rng *rand.Ra
 		}
 		r.requests()
 	}
-	r.teardown()
+	r.finish()
 	w.flush(r.rows)
 }
 
@@ -1096,7 +1175,7 @@ func TestVerifC14(t *testing.T) {
 	wg.Wait()
 	wf.f.Close()
 
-	sum := map[string]interface{}{"d_events": w.n, "f_events": wf.n, "skipped_runs": skippedRuns, "skipped_steps": skippedSteps, "skips": c14Skips, "skip_examples": c14SkipEx,
+	sum := map[string]interface{}{"d_events": w.n, "f_events": wf.n, "skipped_runs": skippedRuns, "skipped_steps": skippedSteps, "skips": c14Skips, "skip_examples": c14SkipEx, "skipped_ids": c14SkipIDs,
 		"chunk_timeout_ms": int(chunkTimeout / time.Millisecond)}
 	b, _ := json.Marshal(sum)
 	if err := os.WriteFile(outDir+"/summary.json", b, 0o644); err != nil {
